@@ -139,8 +139,8 @@ def python_part(run, i):
                 if b1 != b0:
                     run.violation("Python codec bytes change when field declarations are permuted (ids kept)", dict(case, struct=name, value=v, bytes=b0, twin_bytes=b1))
                     return
-                if not ref.same(d1, v):
-                    run.violation("Python codec of the twin decodes the original's bytes to a different value", dict(case, struct=name, value=v))
+                if not ref.same(d1, serde.decode(fcp0, name, bytearray(b0))):
+                    run.violation("Python codec of the twin decodes the original's bytes to a different value than the original schema does", dict(case, struct=name, value=v))
                     return
                 run.count("python_twins_equal")
         run.case(sig="python|%s|%s" % (shapes.shape_sig(sch, focus["name"]), perm))
